@@ -22,7 +22,8 @@ WALL = {"quick": 280, "thorough": 3500}
 RULE = ("one run = document + history of adds/renames to fresh and used identifiers + removals; "
         "distinct = distinct (namespace digest, op) pairs")
 PROBES = ["virtual_link_named", "dup_same_type", "dup_other_type", "dup_vs_id_tag", "rename_used", "rename_fresh", "group_merge",
-          "int_names", "unused_name", "lookup_unused", "complement_link", "mention_clash", "self_mention"]
+          "int_names", "unused_name", "lookup_unused", "complement_link", "mention_clash", "self_mention",
+          "refused_fresh"]
 
 
 def gen(streams, tier, i):
@@ -132,7 +133,21 @@ def gen(streams, tier, i):
                                 "E\t*\t%s+\t%s-\t0\t1\t0\t1\t*" % (a, b),
                                 "F\t%s\tread1+\t0\t1\t0\t1\t*" % bad])
             ops.append({"op": "add", "line": ln, "as": hr.choice(["str", "obj"])})
-        elif r < 0.78 and version == "gfa1":
+        elif r < 0.76:
+            # a line with a fresh identifier that is refused while its references are resolved (not by the
+            # duplicate search): begin > end, too many overlaps, a reference without orientation
+            x = sh.fresh(hr)
+            segs = [q for q in names if ns[q][0].rt == "S"]
+            a = hr.choice(segs) if segs else sh.fresh(hr)
+            b = hr.choice(segs) if segs and hr.random() < 0.7 else sh.fresh(hr)
+            if version == "gfa1":
+                ln = hr.choice(["P\t%s\t%s+,%s+,%s+\t1M,2M,3M,4M" % (x, a, b, a), "P\t%s\t%s+,%s+\t1M,2M,3M" % (x, a, b),
+                                "L\t%s\t+\t%s\t+\t1M\tID:Z:%s" % (a, "", x)])
+            else:
+                ln = hr.choice(["E\t%s\t%s+\t%s+\t20\t10\t0\t5\t*" % (x, a, b), "E\t%s\t%s+\t%s-\t0\t5\t9\t3\t*" % (x, a, b),
+                                "E\t%s\t%s\t%s+\t0\t1\t0\t1\t*" % (x, a, b), "G\t%s\t%s+\t%s\t10\t*" % (x, a, b)])
+            ops.append({"op": "refused_add", "line": ln, "as": hr.choice(["str", "obj", "obj"]), "id": x})
+        elif r < 0.79 and version == "gfa1":
             links = [x for x in m.recs if x.rt == "L"]
             if links:
                 l = hr.choice(links)
@@ -220,6 +235,19 @@ def check_lookup(w, m, st, n, op):
                                  (name, "returned" if o.ok else o.excname), op=op["op"])
 
 
+def ghost_check(g, m, nm, line, n, st):
+    """after a refused line: its identifier, if nothing in the document carries or mentions it, is not in use"""
+    if nm in m.namespace() or nm in m.all_mentions() or nm == "*":
+        return
+    st.count("oracle.refused_identifier_unused")
+    found = core.call(g.line, nm)
+    listed = nm in [x for x in g.names if isinstance(x, str)]
+    if (found.ok and found.value is not None) or listed:
+        raise core.Violation("lookup-ghost", "step %d: %r was refused, but its identifier %r is %s" %
+                             (n, line, nm, "listed in names" if listed else "found by gfa.line()"), op="add",
+                             rt=line.split("\t")[0])
+
+
 def vlink_clash(w, g, op, st, n):
     p = g.line(op["path"])
     if p is None or p.record_type != "P":
@@ -287,6 +315,7 @@ def run(scn, st):
                 w.apply(op)
                 m.add_text(op["line"])
             continue
+        exp = None
         if kind == "unused_name":
             o = core.call(g.unused_name)
             st.count("probe.unused_name")
@@ -298,8 +327,16 @@ def run(scn, st):
         if kind == "vlink_clash":
             vlink_clash(w, g, op, st, n)
             return
-        exp = None
-        if kind == "add":
+        if kind == "refused_add":
+            out = w.apply(dict(op, op="add"))
+            if out.ok:
+                m.unspecified = "malformed line accepted (no validation promised at this level)"
+                return
+            st.count("probe.refused_fresh")
+            ghost_check(g, m, op["id"], op["line"], n, st)
+        if kind == "refused_add":
+            pass
+        elif kind == "add":
             exp = expected_add(m, op["line"])
             pl = gtext.tokenize(op["line"], version)
             nm = m.name_of(pl)
@@ -319,6 +356,8 @@ def run(scn, st):
             pre_canon = m.canon()
             out = w.apply(op)
             st.count("oracle.add_outcome")
+            if not out.ok and nm is not None:
+                ghost_check(g, m, nm, op["line"], n, st)
             if exp == "notunique":
                 if out.ok or out.excname != "NotUniqueError":
                     raise core.Violation("dup-accepted",
